@@ -82,6 +82,30 @@ func (g *gen) plain(nops int) {
 	g.drain()
 }
 
+// burst: a large backlog (up to the default bound of 1000), then a long drain one batch at a time, optionally with a
+// restart in the middle: whatever the queue does to its memory while it shrinks, nothing is dropped or reordered.
+func (g *gen) burst(n int, restart bool) {
+	g.reset("seq", 0)
+	var pool [][][]byte
+	for i := 0; i < n; i++ {
+		pool = append(pool, g.fresh())
+	}
+	if restart {
+		sortByHash(pool) // reload order = arrival order
+	}
+	for _, b := range pool {
+		g.submit(b)
+	}
+	for i := 0; i < n; i++ {
+		if restart && i == n*3/4 {
+			g.line("restart")
+		}
+		g.next()
+	}
+	g.next()
+	g.drain()
+}
+
 // restarts: restarts and crashes at every position.  sorted=true submits a pool of batches in the
 // order of their datastore keys, so that reload order = arrival order and FIFO must hold exactly.
 func (g *gen) restarts(nops int, sorted bool) {
@@ -318,6 +342,14 @@ func genC10(r *hx.Rng, tier string, w io.Writer) {
 		mul, ops = 6, 60
 	}
 	g.fixed()
+	for _, n := range []int{33, 40, 100} {
+		g.burst(n, n == 40)
+	}
+	if tier == "thorough" {
+		g.burst(600, false)
+		g.burst(1000, true)
+		g.burst(300+r.Intn(400), r.Chance(50))
+	}
 	for i := 0; i < 40*mul; i++ {
 		g.plain(ops/2 + r.Intn(ops))
 	}
